@@ -163,4 +163,18 @@ example : (Src.concat (.cons (.concat (.cons (.orig [97] [102]) (.cons (.rawStr 
     = (Src.concat (.cons (.orig [97] [102]) (.cons (.rawStr [59]) (.cons (.orig [98] [103]) .nil)))).leaves := by
   simp [Src.leaves, SrcList.leavesL]
 
+/-- **ReplaceSource nodes may sit below the regrouped ConcatSources**: a ReplaceSource over a well-declared cache-free tree whose
+attached maps reference existing entries is itself a well-declared leaf, so `c13_same_leaves_stream` / `c13_same_leaves_map` apply to trees
+whose leaves are Raw / Original / SourceMapSource / ReplaceSource(…) in any grouping -/
+theorem c13_replace_leaf (cons : Text → Option Text) (inner : Src) (rs : List Repl) (hw : Src.WD cons true inner) (hi : inner.IdxHyp) :
+    Src.WD cons true (.replace inner rs) := Src.wd_replace cons inner rs hw hi
+
+/-- non-vacuity: `Concat[Replace(Original "a;b" f, [(0,1,"X")]), Concat[Raw ";"]]` and its flat regrouping are in the domain -/
+example : Src.WD (fun _ => some [97, 59, 98]) true
+      (Src.concat (.cons (.replace (.orig [97, 59, 98] [102]) [⟨0, 1, [88], none, 1⟩]) (.cons (.concat (.cons (.rawStr [59]) .nil)) .nil)))
+    ∧ (Src.concat (.cons (.replace (.orig [97, 59, 98] [102]) [⟨0, 1, [88], none, 1⟩]) (.cons (.concat (.cons (.rawStr [59]) .nil)) .nil))).leaves
+      = (Src.concat (.cons (.replace (.orig [97, 59, 98] [102]) [⟨0, 1, [88], none, 1⟩]) (.cons (.rawStr [59]) .nil))).leaves := by
+  refine ⟨⟨Src.wd_replace _ _ _ rfl trivial, ⟨trivial, trivial⟩, trivial⟩, ?_⟩
+  simp [Src.leaves, SrcList.leavesL]
+
 end Rs
